@@ -118,5 +118,55 @@ def u_stdigraph_get_width():
     return u
 
 
+def u_cover_lowerbound():
+    """MinPathCoverCycles.get_lowerbound_k: the width of the s-t digraph built from THIS graph with the model's additional starts / ends, computed with the synthetic
+    source / sink edges AND the ignored edges left out (the convention of every k-model); cached, a second call does not recompute."""
+    import z3
+    from pyvc.core import Sym, lift, INT
+    from pyvc.rt import Tracked
+    from pyvc import core
+
+    def h(c, f):
+        width = c.fresh_const("width_without_synthetic_and_ignored_edges", INT)
+        calls = []
+
+        class Union:
+            def __init__(self, parts): self.parts = parts
+
+        class SSE:
+            def union(self, other): return Union(("source_sink_edges", "edges_to_ignore") if other is me.edges_to_ignore else ("source_sink_edges", "?"))
+
+        class StG:
+            def __init__(self, G, additional_starts=None, additional_ends=None):
+                calls.append("build")
+                c.prove("pre:the-s-t-digraph-is-built-from-this-graph-with-the-model's-additional-starts-and-ends",
+                        z3.BoolVal(G is me.G and additional_starts is me.additional_starts and additional_ends is me.additional_ends), prop=P, kind="pre")
+                self.source_sink_edges = SSE()
+            def get_width(self, edges_to_ignore=None):
+                calls.append("width")
+                c.prove("pre:the-width-is-taken-with-the-synthetic-source/sink-edges-and-the-ignored-edges-left-out",
+                        z3.BoolVal(isinstance(edges_to_ignore, Union) and edges_to_ignore.parts == ("source_sink_edges", "edges_to_ignore")), prop=P, kind="pre")
+                return Sym(width)
+
+        class Me(Tracked):
+            pass
+        me = Me()
+        me._lowerbound_k = None
+        me.G, me.additional_starts, me.additional_ends, me.edges_to_ignore = "GRAPH", ["S"], ["E"], ("IGN",)
+        st["StG"] = StG
+        r = f(me)
+        c.prove("post:the-bound-is-that-width", lift(r) == width, prop=P)
+        n0 = len(calls)
+        r2 = f(me)
+        c.prove("post:the-bound-is-cached:-a-second-call-returns-it-without-recomputing", z3.And(z3.BoolVal(len(calls) == n0), lift(r2) == width), prop=P)
+    st = {}
+
+    class Mod:
+        @staticmethod
+        def stDiGraph(G, additional_starts=None, additional_ends=None): return st["StG"](G, additional_starts=additional_starts, additional_ends=additional_ends)
+    return Unit("flowpaths/minpathcovercycles.py", "MinPathCoverCycles.get_lowerbound_k", h, globs=dict(utils=U, stdigraph=Mod, list=lambda x: x), props=[P],
+                callee_contracts=["stDiGraph.get_width (its own unit / bounded layer)"], assumptions=["A4 (not proved): the width is the minimum number of covering walks"])
+
+
 def all_units():
-    return [u_stdag_get_width(), u_stdigraph_get_width()]
+    return [u_stdag_get_width(), u_stdigraph_get_width(), u_cover_lowerbound()]
